@@ -47,10 +47,14 @@ PROPS = {
              "all 5 variants, pads 126/190, two-operation histories incl. Shrink", "RemoveEntities batch with several targets (C06 harness); chains deeper than 1"),
     "C10": P("every rejected call of the C01/C04 step harnesses (dead entity: never reused and recycled id; duplicate / already present / missing component; dead or recycled relation target; exchange of same component) must panic and leave model, INV and lock state unchanged",
              "same", "batch operations (lock state covered by C07); *Unchecked accessors; typed arities > 2"),
+    "C05": P("registered Filter1/Filter2 with FULLY symbolic with/without masks and symbolic relation target (filter or per query) over both shapes: the cached walk/Count equals the model set (= uncached semantics); register/unregister bookkeeping",
+             "same plus cache invariance under one following operation", "more than one registered filter at a time; open queries across register/unregister (known design gap, see DESIGN)"),
+    "C06": P("AddBatchFn, RemoveBatch, ExchangeBatchFn (plain and relation-removing: several source tables into one destination), SetRelationsBatch, RemoveEntities, NewBatchFn/NewEntities over both shapes with a FULLY symbolic batch filter (+ symbolic relation target): selection = model set before the change, per-entity effect = single operation, callback exactly once per selected entity with that entity's pointer, world locked in callbacks, INV after",
+             "same with all shape variants", "batches creating more than 3 entities; iteration order"),
     "C02": P("entity pool of 4 and 6 slots (2 reserved), every id/generation/free-chain content satisfying I-pool, tight slice capacity; one step of Get / Recycle (+ re-issue) with an arbitrary previously issued handle as observer; Recycle of reserved ids",
              "same", "generation wrap after 2^32 recycles of one id (assumed not to happen); forged handles with ids never issued; world-level creators are covered by C01/C06 harnesses",
              ["I-pool with ghost alive/rank/maxGen describes reachable pools"]),
-    "C03": P("mask algebra (Get/Set/Clear/Not/OrI/Contains/ContainsAny/Equals/IsZero/newMask/TotalBitsSet) and filter.matches/Exclusive for ALL 256-bit masks and bit positions; query walks: see C03 world harnesses",
+    "C03": P("unsafe, Query1 and Query2 walks + Count + EntityAt(symbolic i) over both shapes with FULLY symbolic filter masks (256-bit with / without / hasWithout) and a symbolic relation target handle (id and generation: alive, dead, recycled, zero), yielded pointers/targets compared with random access; mask algebra (Get/Set/Clear/Not/OrI/Contains/ContainsAny/Equals/IsZero/newMask/TotalBitsSet) and filter.matches/Exclusive for ALL 256-bit masks and bit positions; query walks: see C03 world harnesses",
              "same", "iteration order"),
     "C08": P("each of the 9 dispatchers (FireCreateEntity, FireRemoveEntity, FireCreateEntityRel, FireRemoveEntityRel, FireAdd, FireRemove, FireSet, FireSetRelations, FireCustom) with 2 observers whose three 256-bit masks and flags are symbolic, aggregates symbolic under I-obs, earlyOut symbolic, transition masks fully symbolic; RemoveObserver at every position of 2 observers; AddObserver onto an arbitrary 1-observer state for 9 event types x 32 observer specs",
              "3 observers per dispatcher; RemoveObserver with 3 observers", "more than 3 observers per event type; observer order",
